@@ -45,7 +45,10 @@ Record observed := {
   x_status : Z;
   x_allow_hdr : option bytes;         (* the Allow header verbatim *)
   x_allow : list bytes;               (* the same, split on ',' and trimmed *)
-  x_location : option bytes
+  x_location : option bytes;
+  (* what copies taken inside the handler show: Context.Clone() and Context.CloneWith(c.Writer(), c.Request()),
+     each as (Route(), Pattern(), Params(), Scope()) *)
+  x_views : list (option (bytes * bytes) * bytes * list param * scope)
 }.
 
 (* lookup table entry: method, and (route, tsr, params of that match) or None *)
@@ -144,10 +147,21 @@ Definition url_view_agrees (k : kase) : bool :=
   | None => true
   end.
 
+(* Clone / CloneWith copies must show exactly what the context itself shows (Dispatch.clone,
+   Dispatch.clone_with: DispatchProofs.clone_view / clone_with_view); the context's own view is compared
+   with the model and the specification below, so this carries both over to the copies *)
+Definition view_agrees (x : observed) (vw : option (bytes * bytes) * bytes * list param * scope) : bool :=
+  let '(r, p, ps, sc) := vw in
+  opt_eqb (fun a b => bytes_eqb (fst a) (fst b) && bytes_eqb (snd a) (snd b)) r (x_route x) &&
+  bytes_eqb p (x_pattern x) && list_eqb param_eqb ps (x_params x) && scope_eqb sc (x_scope x).
+
+Definition views_agree (x : observed) : bool := forallb (view_agrees x) (x_views x).
+
 Definition model_agrees (v : variant) (k : kase) : bool :=
   url_view_agrees k &&
   match run_model k, k_obs k with
   | Done o, Some x =>
+      views_agree x &&
       kind_matches (o_handler o) (x_kind x) &&
       route_matches (c_route (o_ctx o)) x &&
       list_eqb param_eqb (ctx_params (o_ctx o)) (x_params x) &&
@@ -257,6 +271,7 @@ Definition dispatch_ok (k : kase) : bool :=
   match k_obs k with
   | None => false                       (* ServeHTTP must not panic *)
   | Some x =>
+      views_agree x &&
       match expected k with
       | ExServed r ps => served_ok r ps x
       | ExRedirect => redirect_dispatch_ok k x
